@@ -755,8 +755,20 @@ class ModelRegistry:
         return it.new_set(SymSet.comprehension(st, v, z3.And(a.contains(v), b.contains(v)), 'inter'))
 
     def deque_new(self, it, ca):
+        # a deque is a sequence that also knows the multiplicity of its members (state.BagSeq): work-list arguments
+        # ("everything scheduled is eventually taken") need membership without an existential over positions
+        from .state import BagSeq
         seq = it.iter_seq(ca.args[0]) if ca.args else ()
-        return it.st.alloc('deque', items=seq)
+        used(it, 'collections.deque: append / pop act at the right end; multiplicities of members are tracked alongside')
+        if isinstance(seq, tuple):
+            b = BagSeq.empty()
+            for x in seq:
+                b = b.append(lift(x, it.st))
+        elif isinstance(seq, SymSeq):
+            b = BagSeq.of(it.st, seq, 'deque')
+        else:
+            raise Unsupported('deque(<iterable>)')
+        return it.st.alloc('deque', items=b)
 
     def m_deque_pop(self, it, d, ca):
         st = it.st
@@ -768,6 +780,10 @@ class ModelRegistry:
             return items[-1]
         if not st.branch(items.len > 0, 'deque-nonempty'):
             it.raise_builtin('IndexError')
+        if hasattr(items, 'pop_last'):
+            rest, last = items.pop_last()
+            st.setf(d, 'items', rest)
+            return lower(last, st)
         v = lower(items.at(items.len - 1), st)
         st.setf(d, 'items', SymSeq(items.len - 1, items.arr))
         return v
